@@ -7,8 +7,9 @@ import (
 )
 
 type lblInfo struct {
-	name   string
-	isLoop bool
+	name     string
+	isLoop   bool
+	isSwitch bool
 }
 
 type pgen struct {
@@ -49,6 +50,19 @@ func (g *pgen) exitPoint() *SExit {
 	x := &SExit{Site: g.ns()}
 	x.Exits = append(x.Exits, Exit{Kind: xThrow, Val: 1000 + x.Site})
 	x.Exits = append(x.Exits, Exit{Kind: xReturn, Val: 2000 + x.Site})
+	// unlabelled break / continue: target the nearest enclosing loop (or switch, for break)
+	ub, uc := false, false
+	for i := len(g.labels) - 1; i >= 0; i-- {
+		l := g.labels[i]
+		if !ub && (l.isLoop || l.isSwitch) {
+			x.Exits = append(x.Exits, Exit{Kind: xBreak})
+			ub = true
+		}
+		if !uc && l.isLoop {
+			x.Exits = append(x.Exits, Exit{Kind: xContinue})
+			uc = true
+		}
+	}
 	// innermost labels first; at most 3 of each kind to keep the modulus small
 	nb, nc := 0, 0
 	for i := len(g.labels) - 1; i >= 0; i-- {
@@ -70,6 +84,22 @@ func (g *pgen) block(d int) []Stmt {
 	n := 1 + g.t.Draw(3)
 	for i := 0; i < n; i++ {
 		out = append(out, g.stmt(d))
+	}
+	if g.t.Draw(6) == 5 {
+		// an UNCONDITIONAL abrupt statement ends the block: the compiler analyses such blocks specially
+		// (dead code after them, 'finally' blocks that always break, result registers)
+		ex := g.exitPoint().Exits
+		g.site -= 4 // the exit point itself is not emitted
+		x := ex[g.t.Draw(len(ex))]
+		g.use("unconditional-abrupt-statement")
+		switch x.Kind {
+		case xThrow:
+			out = append(out, &SThrow{E: &ENum{N: x.Val}})
+		case xReturn:
+			out = append(out, &SReturn{E: &ENum{N: x.Val}})
+		default:
+			out = append(out, &SBranch{Kind: x.Kind, Label: x.Label})
+		}
 	}
 	return out
 }
@@ -164,6 +194,23 @@ func (g *pgen) expr(d int) Expr {
 		g.use("function-call")
 		f := g.plain[g.t.Draw(len(g.plain))]
 		return &ECall{Fn: f.Name, Args: []Expr{g.expr(d - 1)}}
+	case k == 7 && g.t.Draw(2) == 1:
+		switch g.t.Draw(3) {
+		case 0:
+			g.use("Array.from")
+			e := &EArrayFrom{Iter: g.iterable(d)}
+			if len(g.plain) > 0 && g.t.Draw(3) != 0 {
+				e.Fn = g.plain[g.t.Draw(len(g.plain))].Name
+				g.use("Array.from-mapfn")
+			}
+			return e
+		case 1:
+			g.use("new-Set(iterable)")
+			return &ESetSize{Iter: g.iterable(d)}
+		default:
+			g.use("new-Map(iterable)")
+			return &EMapSize{Iter: g.iterable(d)}
+		}
 	case k == 7:
 		g.use("spread")
 		e := &ESpreadLen{Iter: g.iterable(d)}
@@ -239,36 +286,41 @@ func (g *pgen) stmt(d int) Stmt {
 			s.HasFinally = true
 			s.Finally = g.block(d)
 			g.use("try-finally")
+			if g.mode == "C09" && len(g.gvars) > 0 && g.t.Draw(3) == 0 {
+				// re-entrancy: a finally block (possibly running because of return()/throw()/iterator close) drives a generator
+				g.use("driver-op-in-finally")
+				s.Finally = append(s.Finally, &SAssign{Var: g.scratchVar(), E: &EDrive{Site: g.ns(), Gen: g.gvars[g.t.Draw(len(g.gvars))], Op: g.t.Draw(3), Arg: g.leafExpr()}})
+			}
 		}
 		return s
 	case 6:
 		s := &SFor{Label: g.newLabel(), Var: g.newVar("i"), N: 1 + g.t.Draw(3)}
-		g.withLabel(lblInfo{s.Label, true}, func() { s.Body = g.block(d) })
+		g.withLabel(lblInfo{name: s.Label, isLoop: true}, func() { s.Body = g.block(d) })
 		g.use("for")
 		return s
 	case 7:
 		s := &SWhile{Label: g.newLabel(), Var: g.newVar("w"), N: 1 + g.t.Draw(2), Do: g.t.Draw(2) == 1}
-		g.withLabel(lblInfo{s.Label, true}, func() { s.Body = g.block(d) })
+		g.withLabel(lblInfo{name: s.Label, isLoop: true}, func() { s.Body = g.block(d) })
 		g.use("while/do-while")
 		return s
 	case 8:
 		s := &SForIn{Label: g.newLabel(), Var: g.newVar("k"), N: 1 + g.t.Draw(2)}
-		g.withLabel(lblInfo{s.Label, true}, func() { s.Body = g.block(d) })
+		g.withLabel(lblInfo{name: s.Label, isLoop: true}, func() { s.Body = g.block(d) })
 		g.use("for-in")
 		return s
 	case 9, 10, 11:
 		s := &SForOf{Label: g.newLabel(), Var: g.newVar("x"), Iter: g.iterable(d)}
-		g.withLabel(lblInfo{s.Label, true}, func() { s.Body = g.block(d) })
+		g.withLabel(lblInfo{name: s.Label, isLoop: true}, func() { s.Body = g.block(d) })
 		g.use("for-of")
 		return s
 	case 12:
 		s := &SBlock{Label: g.newLabel()}
-		g.withLabel(lblInfo{s.Label, false}, func() { s.Body = g.block(d) })
+		g.withLabel(lblInfo{name: s.Label}, func() { s.Body = g.block(d) })
 		g.use("labelled-block")
 		return s
 	case 13:
 		s := &SSwitch{Label: g.newLabel(), Disc: &EProbe{Site: g.ns()}}
-		g.withLabel(lblInfo{s.Label, false}, func() {
+		g.withLabel(lblInfo{name: s.Label, isSwitch: true}, func() {
 			nc := 2 + g.t.Draw(2)
 			def := g.t.Draw(nc + 1)
 			for i := 0; i < nc; i++ {
